@@ -308,7 +308,7 @@ func init() {
 			"a difference in the exported diagram JSON counts only if the rendered SVG differs too",
 			"diagrams using features the engine declares unsupported, and diagrams whose layout errors (C17), are outside the space",
 		},
-		Oracles: map[string]eng.Oracle{"layout": c26Oracle, "name": c26NameOracle},
+		Oracles: map[string]eng.Oracle{"layout": c26Oracle, "name": c26NameOracle, "exec": c26ExecOracle},
 		Run: func(w *eng.W) {
 			serde, small, full := FLSerde(), FLSmall(), FLFull()
 			w.Note("alphabet_sizes", fmt.Sprintf("FLserde=%d FLsmall=%d FLfull=%d", len(serde), len(small), len(full)))
@@ -335,6 +335,9 @@ func init() {
 				})
 				chunked(w, "FLsmall=2:elk", 8, func(emit func(string, string)) {
 					forPrograms("", small, 2, func(src string) { emit("layout", mkIn("elk", src)) })
+				})
+				chunked(w, "child-process-protocol:FLfull+FLserde<=1:dagre", 8, func(emit func(string, string)) {
+					forPrograms("", cat(full, serde), 1, func(src string) { emit("exec", mkIn("dagre", src)) })
 				})
 				chunked(w, "names=2:N->b,c:{N}:dagre", 8, func(emit func(string, string)) {
 					u.Seqs(sigmaS, 2, func(s []string) {
@@ -372,3 +375,8 @@ func c26NameOracle(in string) eng.Res {
 }
 
 var _ = strings.Join
+
+func mustJSON(v any) string {
+	b, _ := json.Marshal(v)
+	return string(b)
+}
